@@ -31,17 +31,18 @@ KEY_COARSE = 'one_pop:coarse-grid-exceeds-1.5pct'
 # ------------------------------------------------------------------------------------------------
 # (i) density
 
-G_FORCED = [0.0, 1e-8, -1e-8, 1e-6, -1e-4, 0.01, -0.01, 0.5, -1.0, 3.0, -10.0, 40.0, -100.0, 250.0,
+G_FORCED = [0.0, 1e-8, -1e-8, 1e-4, -1e-4, 0.01, -0.01, 0.5, -1.0, 3.0, -10.0, 40.0, -100.0, 250.0,
             299.9, 300.0, 300.1, -299.9, -300.0, -300.1, -354.0, -356.0, 600.0, 1e3, -1e3, -1e4, -1e5, -1e6]
 H_FORCED = [0.5, 0.0, 0.2, 0.5 - 1e-9, 0.5 + 1e-9, 1.0]
 OVF = 709.782712893384 / 2        # |g| at which exp(-2g) overflows
+TINY = 1e-5                      # below: 1 - exp(-2 g (1-x)) loses more than 1e-7 to cancellation in float64 (grids reach 1-x ~ 4e-4)
 
 def g_eff(c):
     return c['gamma'] * c['nu'] * 4 * c['beta'] / (c['beta'] + 1) ** 2
 
 def near_switch(g):
     """effective coefficient within rounding distance of a branch point (only reachable when nu, beta make it inexact)"""
-    return any(abs(abs(g) - t) < 1e-6 * t for t in (300.0, OVF)) or (g != 0 and abs(g) < 1e-8)
+    return any(abs(abs(g) - t) < 1e-6 * t for t in (300.0, OVF)) or (g != 0 and abs(g) < TINY)
 
 def gen_density(ctx):
     rng = ctx.rng
@@ -70,7 +71,7 @@ def gen_density(ctx):
     nrand = ctx.pick(60, 2000) - len(cases)
     k = 0
     while k < max(nrand, 0):
-        mag = math.exp(rng.uniform(math.log(1e-6), math.log(1e6)))
+        mag = math.exp(rng.uniform(math.log(1e-5), math.log(1e6)))
         gamma = numgen.logdy(rng, mag, mag * 1.0001, 8)
         if rng.random() < 0.6 or gamma > 1e3:
             gamma = -gamma
@@ -150,9 +151,17 @@ def density_part(ctx):
         ok = rr is not None and rr[0]
         ctx.obligation('dens case %d: gamma=%r h=%r nu=%r beta=%r' % (cid, c['gamma'], c['h'], c['nu'], c['beta']), ok, 'correspondence', '' if ok else 'coq %r' % (rr,))
         if not ok:
+            tiny = c['h'] == 0.5 and 0 < abs(g_eff(c)) < TINY
+            if tiny:
+                # float cancellation in (1-exp(-2g(1-x)))/(1-exp(-2g)): the density is not continuous at the gamma = 0 switch in float64
+                ctx.obligations[-1]['known_key'] = KEY_TINY
+                ref = snm_ref(r['xx'], c)
+                dev = max(abs(a - bb) / bb for a, bb in zip(r['phi'][1:-1], ref[1:-1]))
+                ctx.violation('phi_1D_genic loses accuracy to cancellation near gamma = 0: gamma=%r gives entries %.3g (relative) away from the neutral density, exact theory says <= %.1g' % (
+                    c['gamma'], dev, 3 * abs(g_eff(c))), data={'case': c, 'impl': r, 'coq': rr}, key=KEY_TINY)
+                continue
             nbad += 1
             if nbad <= 3:
-                # failing input of the property itself: is the density the closed-form equilibrium?  probe stationarity with these parameters
                 ctx.violation('phi_1D differs from the closed-form equilibrium density (model) beyond 1e-7: gamma=%r h=%r nu=%r theta0=%r beta=%r (log2 rel err %r)' % (
                     c['gamma'], c['h'], c['nu'], c['theta0'], c['beta'], rr), data={'case': c, 'impl': r, 'coq': rr})
     return cases, byid
@@ -165,12 +174,13 @@ def continuity_part(ctx):
         probes.append((tag, a, bb, scale_tol, key))
     base = {'kind': 'dens', 'nu': 1.0, 'theta0': 1.0, 'beta': 1.0, 'pts': 16}
     # gamma = 0 switch (genic and general h): |phi(g) - phi(0)| <= C |g|  (theorem: C = 2 e^{2|g|}/x relative to 1/x -> rel 2.1|g|)
-    for g in [1e-6, -1e-6, 1e-8, -1e-8]:
-        for h in [0.5, 0.2]:
-            pair('gamma0', dict(base, gamma=g, h=h), dict(base, gamma=0.0, h=h), 3 * abs(g) + 2e-7)
+    for g in [1e-3, -1e-3, 1e-5, -1e-5]:
+        pair('gamma0', dict(base, gamma=g, h=0.5), dict(base, gamma=0.0, h=0.5), 3 * abs(g) + 2e-7)
+    for g in [1e-3, -1e-5, 1e-8, -1e-8, 1e-12]:
+        pair('gamma0', dict(base, gamma=g, h=0.2), dict(base, gamma=0.0, h=0.2), 3 * abs(g) + 2e-7)
     # far below: float cancellation region of the genic closed form
-    for g in [1e-9, -1e-10, 1e-12, -1e-14, 1e-16, -1e-17, 1e-100, -1e-300]:
-        pair('gamma0-tiny', dict(base, gamma=g, h=0.5), dict(base, gamma=0.0, h=0.5), 1e-6, KEY_TINY)
+    for g in [1e-7, -1e-8, 1e-9, -1e-10, 1e-12, -1e-14, 1e-16, -1e-17, 1e-100, -1e-300]:
+        pair('gamma0-tiny', dict(base, gamma=g, h=0.5), dict(base, gamma=0.0, h=0.5), 2e-6, KEY_TINY)
     # |gamma| = 300 guards and the overflow guard of the general-h path; h = 0.5 switch
     for h in [0.5, 0.0, 0.3, 1.0]:
         for g0 in [-300.0, 300.0] + ([-354.891356446692] if h != 0.5 else []):
@@ -317,8 +327,9 @@ def run_pair_files(ctx, tag, exprs, fn, shard):
     ctx.checker_cmds.append('coqc -Q coq/theories Dadi build/cases/C01_%s_*.v  (%d cases, oracle evaluated by vm_compute)' % (tag, len(exprs)))
     return out
 
-def conv_floor(p0):
-    return 0.010 if p0 < 60 else 0.006 if p0 < 100 else 0.004
+def conv_floor(p0, sel=False):
+    """level of the grid error, below which the time-step error cannot be seen (selected densities: the discrete stationary state)"""
+    return 0.010 if (p0 < 60 or sel) else 0.006 if p0 < 100 else 0.004
 
 def history_part(ctx):
     cases = gen_histories(ctx)
@@ -371,7 +382,7 @@ def history_part(ctx):
                                                      ('params=%r' % c['params']) if 'params' in c else 'hist=%r' % [(e.get('nu', (e.get('nu_start'), e.get('nu_end'))), e['T']) for e in c['hist']])
         ctx.case(signature=('hist', json.dumps(c, sort_keys=True)), sample={'case': c, 'err_1e-3': e3, 'err_1e-4': e4} if c['id'] % 11 == 0 else None)
         ok15 = e4 <= 0.015
-        okconv = e4 <= max(0.3 * e3, conv_floor(p0))
+        okconv = e4 <= max(0.3 * e3, conv_floor(p0, 'sel' in c))
         if c['coarse']:
             ctx.count('hist coarse grid')
             ctx.obligation('hist %d (coarse grid) within 1.5%% at 1e-4: %s' % (c['id'], desc), ok15, 'predicate', 'err %.4g / %.4g' % (e3, e4))
@@ -382,7 +393,7 @@ def history_part(ctx):
             continue
         worst = max(worst, e4)
         ctx.obligation('hist %d within 1.5%% of the oracle at 1e-4: %s' % (c['id'], desc), ok15, 'predicate', 'err %.4g / %.4g' % (e3, e4))
-        ctx.obligation('hist %d error shrinks with the time step: %s' % (c['id'], desc), okconv, 'predicate', 'err %.4g / %.4g floor %.3g' % (e3, e4, conv_floor(p0)))
+        ctx.obligation('hist %d error shrinks with the time step: %s' % (c['id'], desc), okconv, 'predicate', 'err %.4g / %.4g floor %.3g' % (e3, e4, conv_floor(p0, 'sel' in c)))
         if not ok15:
             ctx.violation('one-population spectrum is %.2f%% from exact theory at timescale_factor 1e-4 (%.2f%% at 1e-3): %s' % (100 * e4, 100 * e3, desc),
                           data={'case': c, 'impl': byid[c['id']], 'err': [e3, e4]})
